@@ -121,6 +121,9 @@ MANIFEST = {
     "technique": "property-based testing (Hypothesis) with a finite-difference derivative oracle over a data-driven table of entry points",
 }
 ASSUMPTIONS = [
+    "transform_histories: probed at generic parameter values only; a final state 'fresh' has no prefix and reset_parameters is not "
+    "used as last operation (zero parameters put every sample on an interpolation knot, where autograd legitimately returns a "
+    "one-sided derivative; special points of transformations are covered by the facets without history)",
     "special points (central-difference oracle) are generated only where the operation is differentiable there and not legitimately "
     "constant in a leaf, decided from the formula: not for |x| at 0 (mae / l1, L1Norm, Sparsity, total_variation_loss, grad_loss with "
     "odd p or q not in {1, 2}) and norm at 0 (inverse_consistency_loss, point distances) - these convex kinks, and the angle-axis / "
@@ -3230,7 +3233,27 @@ def _history_apply(cls, t, op, case, key, x, as_parameter=True):
         raise KeyError(op)
 
 
+def _history_normalise(case) -> dict:
+    """Histories are probed at GENERIC parameter values only, and a 'fresh' transformation has no history.
+
+    (i) A final state 'fresh' means: the constructed object as it is - a generated prefix (e.g. an evaluation under no_grad)
+    would leave cached buffers behind for which the documented contract requires update() before the next read.
+    (ii) At zero / initial parameters (special point, final reset_parameters) the nodes whose parameters an optimiser step of
+    the prefix did not move are sampled exactly at interpolation knots: the function has a kink there and autograd returns a
+    one-sided derivative (observed on the unchanged tree: symmetric difference quotients agree with each other, not with
+    autograd).  Special points of transformations are covered by the facets without history."""
+    case = dict(case)
+    case["point"] = "generic"
+    if case["final"] == "fresh":
+        case["prefix"] = []
+    if case["final"] == "reset_parameters":
+        case["final"] = "data_"
+    case["prefix"] = [[op, ng] for op, ng in case["prefix"] if op != "reset_parameters"]
+    return case
+
+
 def build_history_probe(case) -> Probe:
+    case = _history_normalise(case)
     cls, _, read = case["entry"].split(".", 2)
     g = case["grid"]
     grid = make_grid(g)
